@@ -226,7 +226,78 @@ fn case(cfg: &Cfg, rep: &mut Report, id: &str, flavor: Flavor, op: &str, a: &[N]
   }
 }
 
+/// The subscriber's handler panics on its k-th item (caught around the input's call, the program
+/// goes on), item-only timelines on the local forms of the stateful combinators: the whole observed
+/// sequence (the probe records an item before its handler runs) is still what the timeline model
+/// gives - an arriving value that took part in a combination IS the latest from then on.
+fn panicking_handler_battery(cfg: &Cfg, rep: &mut Report) {
+  let tls: Vec<Vec<(usize, N)>> = vec![
+    vec![(0, N::Next(V::I(1))), (1, N::Next(V::I(101))), (0, N::Next(V::I(2))), (1, N::Next(V::I(102))), (0, N::Next(V::I(3)))],
+    vec![(1, N::Next(V::I(101))), (0, N::Next(V::I(1))), (1, N::Next(V::I(102))), (0, N::Next(V::I(2))), (1, N::Next(V::I(103)))],
+    vec![(0, N::Next(V::I(1))), (0, N::Next(V::I(2))), (1, N::Next(V::I(101))), (1, N::Next(V::I(102))), (0, N::Next(V::I(3))), (1, N::Next(V::I(103)))],
+  ];
+  let mut idx = 0;
+  for op in ["combine_latest", "with_latest_from", "zip", "merge"] {
+    for tl in &tls {
+      for k in 1..=2usize {
+        idx += 1;
+        let id = format!("panicking-handler:{}", idx);
+        if !cfg.wants(&id) {
+          continue;
+        }
+        let allowed = model::two_input_allowed(op, tl);
+        if !allowed.iter().any(|a| a.iter().filter(|n| matches!(n, N::Next(_))).count() >= k) {
+          continue;
+        }
+        rep.evaluations += 1;
+        rep.count("cases_with_a_handler_that_panics_on_an_item", 1);
+        let got = catch(|| {
+          clear_local_cbs();
+          let mut w = World::new(Flavor::Local, 2);
+          w.subscribe(&Chain::new(Src::Hot(0), vec![mk_op(op, Chain::hot(1))]), 1);
+          let seen = std::rc::Rc::new(std::cell::Cell::new(0usize));
+          let s2 = seen.clone();
+          set_local_cb(
+            1,
+            std::rc::Rc::new(move |n: &N| {
+              if matches!(n, N::Next(_)) {
+                s2.set(s2.get() + 1);
+                if s2.get() == k {
+                  panic!("the subscriber fails on an item");
+                }
+              }
+            }),
+          );
+          for (who, n) in tl.iter() {
+            let (who, n) = (*who, n.clone());
+            let w2 = &mut w;
+            let _ = std::panic::catch_unwind(std::panic::AssertUnwindSafe(move || w2.inject(who, n)));
+          }
+          clear_local_cbs();
+          let out = w.log.notes(1);
+          w.teardown();
+          out
+        });
+        match got {
+          Err(p) => rep.violation("panic", &format!("{}[a handler panicked on an item]", op), &id, json!({"panic": p})),
+          Ok(out) => {
+            rep.events += out.len() as u64;
+            if !allowed.contains(&out) {
+              rep.violation("wrong_items", &format!("{}[a handler panicked on an item]", op), &id, json!({"timeline": format!("{:?}", tl), "handler_panicked_on_its_item_number": k, "observed": jn(&out), "expected_one_of": allowed.iter().map(|a| jn(a)).collect::<Vec<_>>()}));
+            } else {
+              rep.nontrivial.insert(hash64(&(op, tl, k, "panicking-handler")));
+            }
+          }
+        }
+      }
+    }
+  }
+}
+
 pub fn run(cfg: &Cfg, rep: &mut Report) {
+  if cfg.shard == 0 && cfg.only_case.as_deref().map_or(true, |c| c.starts_with("panicking-handler:")) {
+    panicking_handler_battery(cfg, rep);
+  }
   let maxn = cfg.n(3, 5);
   let mut idx = 0usize;
   // enumerated: all script pairs x all interleavings x both flavours
